@@ -40,12 +40,37 @@ def cases(tier, seed):
         spec = gen.make_spec(rng, D=D, geom=str(rng.choice(gen.GEOMS)), x0mode=x0mode, land=land,
                              where=str(rng.choice(["in", "onb", "out"], p=[0.45, 0.3, 0.25])), mode="det", cons=cons, options=opts,
                              max_fun_evals=int(rng.choice([50, 80, 120, 200])))
-        out.append({"spec": spec})
+        case = {"spec": spec}
+        if rng.random() < 0.35:
+            # 'the k-th evaluated point is by far the best of the run': k drawn over the whole run,
+            # with emphasis on the first and last points of the initial design
+            case["well_at"] = str(rng.choice(["design-first", "design-last", "x0", "random", "last"], p=[0.2, 0.3, 0.1, 0.3, 0.1]))
+            case["well_u"] = float(rng.random())
+        out.append(case)
     return out
 
 
 def run_case(case):
-    return C.run_monitored(case, {"C04"})
+    if case.get("well_at"):
+        from ..runmon import RunMonitor
+
+        ref = RunMonitor(case["spec"], oracles=set())
+        rr = ref.run()
+        if rr["status"] == "ok" and ref.calls:
+            ph = [e["phase"] for e in ref.calls]
+            des = [i for i, p in enumerate(ph) if p == "design"]
+            w = case["well_at"]
+            k = {"design-first": des[0] if des else 0, "design-last": des[-1] if des else 0, "x0": 0, "last": len(ph) - 1,
+                 "random": int(case["well_u"] * len(ph))}[w]
+            k = min(k, len(ph) - 1)
+            P = gen.Problem(case["spec"])
+            tk = gen.tmap(ref.calls[k]["x"], P.plb, P.pub, P.logm)
+            lo = min(e["y"] for e in ref.calls if "y" in e)
+            spec = dict(case["spec"], target=dict(case["spec"]["target"], wells=[{"t": [float(v) for v in tk], "r": 1e-12, "v": float(lo - 10.0 - abs(lo))}]))
+            case = dict(case, spec=spec, well_k=k, well_phase=ph[k])
+    rec = C.run_monitored(case, {"C04"})
+    rec["well"] = [case.get("well_at"), case.get("well_k"), case.get("well_phase")] if case.get("well_at") else None
+    return rec
 
 
 def summarize(records, tier, seed):
@@ -55,7 +80,12 @@ def summarize(records, tier, seed):
             o = r["case"]["spec"]["options"]
             nt.add(C.sig_of(r["case"], tuple(sorted(k for k in o if k not in ("display", "random_seed", "max_fun_evals")))))
     cnt = C.count_sum(records, "C04.")
+    wells = {}
+    for r in records:
+        if r.get("well") and r["well"][2]:
+            wells[r["well"][2]] = wells.get(r["well"][2], 0) + 1
     extra = {"events_checked": cnt, "status": C.status_hist(records), "target_calls_logged": C.count_sum(records, "target_calls"),
+             "runs_with_a_deep_well_at_the_kth_evaluated_point_by_phase": wells,
              "aborts_by_other_defects": C.other_property_aborts(records, "C04")}
     inconc = None
     if cnt.get("C04.results", 0) == 0:
